@@ -172,7 +172,7 @@ def run(chk, replay=None):
                 "frames of a multipart message} x {orderly EOF, connection reset (reads and writes fail), EOF followed by write failure} x {1, 2 other live peers} x {the fault is first met by a recv, by a send}, each followed by recv / send calls and "
                 "traffic from the other peers, on real sockets over in-memory pipes (enumerated exhaustively), plus seeded random variations; judged by TLC: TraceLifecycle (at most one "
                 "error per fault, no send routed to a peer whose end was observed, both halves released by the next quiescent point) and TraceDelivery (other peers unaffected); "
-                "the reaction mechanism is model-checked with its named deviations (PeerLifecycle), the peer table's locking with PeerTable, the multi-step registration / forgetting of connections of one identity with Registry (bound by the twins cells: one registration is stopped between its steps while a second one of the same identity runs); distinct = distinct grid cells; non-trivial = all")
+                "the reaction mechanism is model-checked with its named deviations (PeerLifecycle), the peer table's locking with PeerTable, the multi-step registration / forgetting of connections of one identity with Registry (bound by the twins cells: one registration is stopped between its steps while a second one of the same identity runs - and sampled on the multi-threaded runtime over real TCP: 8 groups of two connections per round finish their handshakes under one identity at the same instant, every connection the socket leaves open must be one it reads from, TraceRace); distinct = distinct grid cells; non-trivial = all")
     chk.assumptions = ["TLC and CommunityModules are correct", "'observed' = the library's read on that connection returned EOF / an error or its write returned an error (logged by the pipe)",
                        "descriptor counting over real TCP/IPC is done by the C17 check's drivers, not here"]
     thorough = chk.tier == "thorough"
@@ -247,6 +247,17 @@ def run(chk, replay=None):
         for t in ("PUB", "XPUB"):
             for rep in range(24 if thorough else 8):      # which branch the old reader task's select! takes is random
                 scen += 1; fam.append(restart_script(t, scen, rep))
+    if not replay:
+        import netlib
+        races = netlib.race_scripts(rng, thorough, what=("twins",))
+        for s in races: chk.case(("race", s["sock"], s["tag"], s["scen"]))
+        rv = netlib.run_net(chk, races, "c16-races", procs=3, monitor="TraceRace")
+        netlib.report(chk, rv, races, ("C16/",), "races")
+    elif fam and fam[0].get("ops") and any(o.get("op", "").startswith("mt_") for o in fam[0]["ops"]):
+        import netlib
+        rv = netlib.run_net(chk, fam, "c16-races", procs=1, monitor="TraceRace")
+        netlib.report(chk, rv, fam, ("C16/",), "races")
+        return
     for s in fam: chk.case((s["sock"], s["tag"], s["scen"]))
     chk.sample({"kind": "fault scenario", "sock": fam[len(fam) // 2]["sock"], "cell": fam[len(fam) // 2]["tag"], "ops": [(o["op"], o.get("c")) for o in fam[len(fam) // 2]["ops"]]})
     v = dlvlib.run_scripts(chk, fam, "c16", monitor="TraceLifecycle")
